@@ -1,6 +1,6 @@
 (* C01 - Completeness.  Only statements, each closed by `exact`, pinned by `Check`,
    followed by Print Assumptions. *)
-From Coq Require Import List.
+From Coq Require Import List NArith.
 From PC Require Import Base.Field Base.Result Base.Poly Schemes.KZG10 Schemes.Marlin Proofs.KZG10Facts Proofs.MarlinComplete.
 Import ListNotations.
 
